@@ -12,19 +12,21 @@ defs and lambdas; decision-tree merges; loops solved by induction), not on the s
       feasible iff it is a convex combination (weights sum to 1, each within [0, 1] by interval arithmetic, step lengths >= 0
       assumed) of points of the driver's box:  `project` returns a box point of [bounds[:,0], bounds[:,1]]; the bounds handed to the
       driver are column_stack of lower/upper scaled like the start point; every return of project_onto_tr is a box point; every
-      definition of the Cauchy step reaching the return of find_generalized_cauchy_point, added to x, is one; the SPG step keeps
-      x + z a convex combination through every update (which needs every step length <= 1, through every line-search callee);
+      definition whose value *flows into* the Cauchy step returned by find_generalized_cauchy_point (found on the terms, through
+      helpers, tuple / record carries and loop-carried variables; also on the first, exact iteration of every loop), added to x, is one;
+      the SPG step keeps x + z a convex combination through every update (which needs every step length <= 1, through every line-search
+      callee);
       with everything inlined the driver's trial point, its iterate (by induction over the main loop) and every point it returns
       are box points of the driver's bounds;
   D4  NaN polarity;  T6 both trust-region drivers use the same acceptance rule shape.
-Not decided: alpha >= 0, optimality for convex problems, closest-point property beyond the clamp shape, behaviour of
+REFUTED only for fully understood values (no library result without a model, no loop-carried unknown): a case the executor cannot read
+is UNDECIDED.  Not decided: alpha >= 0, optimality for convex problems, closest-point property beyond the clamp shape, behaviour of
 scipy.optimize.brentq, membership in the trust region.
 """
 from __future__ import annotations
 
 import ast
 
-from optilint.cfg import cfg_of
 from optilint.core import Incomplete
 from . import C05_sym as S
 from . import C05_tr as TR
@@ -90,71 +92,130 @@ def _box(bounds):
     return (S.col(bounds, 0), S.col(bounds, 1))
 
 
+def _bounds_as_points(leaf, box):
+    """The lower / upper bound themselves are points of the box (lo <= hi assumed): occurrences as top-level terms of the polynomial
+    count as box points."""
+    if not S.is_num(leaf) or leaf.k in ("const", "unbound"):
+        return leaf
+    p = poly(leaf)
+    keys = {box[0].key: "lower bound", box[1].key: "upper bound"}
+    if not any(a in keys for a in p.atoms()):
+        return leaf
+    out = type(p)()
+    for m, c in p.t.items():
+        m2 = tuple(sorted(((mk("feas", keys[a], box[0], box[1]).key if a in keys else a), e) for (a, e) in m))
+        out = out + type(p)({m2: c})
+    return S.num(out)
+
+
+def _within_by_facts(leaf, cs, box):
+    """The path conditions (e.g. of an elementwise selection) say lo <= leaf <= hi."""
+    lo_ok = hi_ok = False
+    for (c0, p0) in cs:
+        for (c, p) in S.flatten(c0, p0):
+            if c.k != "cmp" or c.a[0] not in ("lt", "le"):
+                continue
+            l, r = c.a[1], c.a[2]
+            if (p and l.key == box[0].key and r.key == leaf.key) or (not p and l.key == leaf.key and r.key == box[0].key):
+                lo_ok = True        # lo <= leaf   /   not (leaf < lo)
+            if (p and l.key == leaf.key and r.key == box[1].key) or (not p and l.key == box[1].key and r.key == leaf.key):
+                hi_ok = True
+    return lo_ok and hi_ok
+
+
+def _column_of(t, box):
+    """t is a column of the container the expected box is taken from -> its index, else None"""
+    if t.k == "col" and box[0].k == "col" and isinstance(t.a[0], S.T) and t.a[0].key == box[0].a[0].key:
+        return t.a[1]
+    return None
+
+
 def _in_box(v, box, offset=None):
-    """Every case of the value tree v (plus offset) is a convex combination of points of `box` -> (verdict True/False/None, reason)"""
+    """Every case of the value tree v (plus offset) is a convex combination of points of `box` -> (verdict True/False/None, reason).
+    False only for a case that is fully understood (no value the executor has no model for, no loop-carried unknown) and positively
+    not such a combination; a case this analysis cannot read gives None."""
     verdict, why = True, ""
     if offset is not None:
         v = S.add(v, offset)
     for (cs, leaf) in leaves(v):
-        r = convex(leaf, facts=cs)
+        r = convex(_bounds_as_points(leaf, box), facts=cs)
         if r.ok and r.box is not None and (r.box[0].key, r.box[1].key) == (box[0].key, box[1].key):
             continue
+        if not r.ok and _within_by_facts(leaf, cs, box):
+            continue
+        unknown = r.unknown
         if r.ok and r.box is not None:
-            cols = [(b.a[1] if b.k == "col" else show(b)) for b in r.box]
-            reason = f"it is clamped between `{show(r.box[0])}` and `{show(r.box[1])}` (lower={cols[0]}, upper={cols[1]}), not between the bounds' lower and upper columns"
+            cols = [_column_of(b, box) for b in r.box]
+            shown = [(c if c is not None else show(b)) for c, b in zip(cols, r.box)]
+            reason = f"it is clamped between `{show(r.box[0])}` and `{show(r.box[1])}` (lower={shown[0]}, upper={shown[1]}), not between the bounds' lower and upper columns"
+            if None in cols:
+                unknown = True          # bounds of another origin: not comparable by this rule
         else:
             reason = r.why
         cond = " and ".join(("" if p else "not ") + S.brief(c, 50, 2) for (c, p) in cs[:2])
         reason = f"`{S.brief(leaf, 120, 3)}`: {reason}" + (f" (case: {cond})" if cond else "")
-        if r.unknown and verdict is True:
+        if unknown and verdict is True:
             verdict, why = None, reason
-        elif not r.unknown and verdict is not False:
+        elif not unknown and verdict is not False:
             verdict, why = False, reason
     return verdict, why
 
 
 def _interp(ctx, **kw):
-    I = S.Interp(ctx, inline=lambda s: s.module.name == SPG, max_depth=9, **kw)
+    I = S.Interp(ctx, inline=lambda s: not getattr(s.module, "is_test", False), max_depth=9, **kw)
     I.compact_above = 1
     return I
 
 
-def _contributing(scope, ret_node, expr):
-    """Statements that (through copies `a = b`, conditional copies and in-place updates) define the names of `expr` at the return."""
-    cfg = cfg_of(scope)
-    rn = cfg.node_for(ret_node)
+def _all_events(I):
+    """Events of the final pass plus, for every loop, those of its first iteration (executed on the exact initial values)."""
     out, seen = [], set()
-    work = [(rn, n.id) for n in ast.walk(expr) if isinstance(n, ast.Name)] if rn is not None else []
+    for e in list(I.events) + [e for r in I.loops.values() for e in r.first_events]:
+        if id(e) not in seen:
+            seen.add(id(e))
+            out.append(e)
+    return out
+
+
+def _flow_defs(I, value):
+    """The assignments whose value *flows into* `value`, found on the terms (not on the syntax): an assignment (in any inlined frame) whose
+    value is one of the cases of `value`; for a case that is the loop-head value of a carried variable the initial and back-edge
+    values of that variable; for a case abstracted at a merge the cases that were merged.  Copies, tuple unpacking,
+    helper functions that compute or hand on the value and conditional assignments need no special treatment: the term is the same.
+    -> [(statement node, variable name, scope, [events of that statement for that variable, first iterations included])]"""
+    allev = [e for e in _all_events(I) if e["kind"] == "assign"]
+    by_leaf = {}
+    for e in allev:
+        for (_, l) in leaves(e["value"]):
+            by_leaf.setdefault(l.key, []).append(e)
+    heads = {}
+    for r in I.loops.values():
+        for name, h in r.head.items():
+            if isinstance(name, str) and r.status.get(name) != "same":
+                for (_, hl) in leaves(h):
+                    heads.setdefault(hl.key, []).append((r, name))
+    seen_leaf, found = set(), {}
+    work = [l for (_, l) in leaves(value)]
     while work:
-        node, name = work.pop()
-        for d in cfg.reaching(node, name):
-            if d is cfg.entry or (id(d), name) in seen:
-                continue
-            seen.add((id(d), name))
-            if d.kind != "stmt" or d.ast is None:
-                continue
-            if d.ast not in out:
-                out.append(d.ast)
-            a = d.ast
-            val = getattr(a, "value", None)
-            if isinstance(a, ast.AugAssign):
-                work.append((d, name))
-            elif isinstance(a, ast.Assign):
-                v = val
-                if isinstance(a.targets[0], ast.Tuple) and isinstance(v, ast.Tuple) and len(a.targets[0].elts) == len(v.elts):
-                    for t_, v_ in zip(a.targets[0].elts, v.elts):
-                        if isinstance(t_, ast.Name) and t_.id == name:
-                            v = v_
-                cands = [v] if not isinstance(v, ast.IfExp) else [v.body, v.orelse]
-                for c in cands:
-                    if isinstance(c, ast.Name):
-                        work.append((d, c.id))
-    return sorted(out, key=lambda s: getattr(s, "lineno", 0))
-
-
-def _events_for(I, fr, stmt, name=None, first=False):
-    src = I.events if not first else [e for r in I.loops.values() if r.frame == fr.id for e in r.first_events]
-    return [e for e in src if e["frame"] == fr.id and e["kind"] == "assign" and e["node"] is stmt and (name is None or e["name"] == name)]
+        l = work.pop()
+        if l.key in seen_leaf:
+            continue
+        seen_leaf.add(l.key)
+        for e in by_leaf.get(l.key, []):
+            found.setdefault((id(e["node"]), e["name"]), (e["node"], e["name"], e["scope"]))
+        # the case IS the loop-head value of a carried variable / a value abstracted at a merge: same role, follow its sources
+        for (r, name) in heads.get(l.key, []):
+            for v in (r.init.get(name), r.back.get(name)):
+                if v is not None and v is not S.UNBOUND:
+                    work.extend(x for (_, x) in leaves(v))
+        for c in I.compacted.get(l.key, []):
+            work.extend(x for (_, x) in leaves(c))
+    out = []
+    for (nid, name), (node, nm, scope) in found.items():
+        evs = [e for e in allev if e["node"] is node and e["name"] == nm]
+        out.append((node, nm, scope, evs))
+    out.sort(key=lambda x: (getattr(x[0], "lineno", 0), x[1]))
+    return out
 
 
 def _txt(st, n=60):
@@ -182,7 +243,8 @@ def d3_feasible(ctx):
             if not all(l.k == "clamp" for l in ls):
                 ok, why = None, f"`{S.brief(ev['value'], 100, 3)}` is feasible but not a single clamp (closest point not decided)"
             elif not all(l.a[0].key == mk("sym", pp[0]).key for l in ls):
-                ok, why = False, f"`{S.brief(ev['value'], 100, 3)}` clamps something else than the argument `{pp[0]}`"
+                ok = False if S.understood(ev["value"]) and S.no_carried_unknown(ev["value"]) else None
+                why = f"`{S.brief(ev['value'], 100, 3)}` clamps something else than the argument `{pp[0]}`"
         ctx.decide(rule, ok, pj, ev["node"], construct="project-is-clamp",
                    detail=f"returns the argument clamped between {pp[1]}[:,0] and {pp[1]}[:,1]",
                    bad_detail=f"project returns {why or show(ev['value'])[:120]}: not max(lower, min(x, upper)) with lower={pp[1]}[:,0], upper={pp[1]}[:,1]")
@@ -195,8 +257,7 @@ def d3_feasible(ctx):
     upp = [p for p in sps if "upper" in p.lower()] or sps[4:5]
     if len(lowp) != 1 or len(upp) != 1:
         raise Incomplete("solve(): lower/upper bound parameters not identified")
-    I = S.Interp(ctx, opaque=[drv], inline=lambda s: s.module.name == SPG and not TR.has_loop(s))
-    res, fr = I.run(sv, {})
+    I, fr, _ = TR.solve_run(ctx, SPG, "solve", drv)
     calls = [e for e in I.events if e["kind"] == "call" and e.get("callee_scope") is drv]
     if not calls:
         raise Incomplete("solve(): call of the minimizer not found")
@@ -216,6 +277,8 @@ def d3_feasible(ctx):
                 ok = None          # a form of scaling this rule does not read
             else:
                 ok = cl == cu == cx and not cl.is_zero()
+                if not ok and not S.understood(lo, hi, x0t):
+                    ok = None
         else:
             ok = None
         ctx.decide(rule, ok, sv, e["node"], construct="bounds-columns-and-scaling",
@@ -260,10 +323,16 @@ def d3_feasible(ctx):
         b = e["bound"]
         tp = pt.params()
         centre, bnds, radius = b.get(tp[1]), b.get(tp[2]), b.get(tp[3])
-        okc = centre is not None and centre.key == Xs.key
-        okb = bnds is not None and bnds.key == Bs.key
-        okr = radius is not None and len(ss) > 6 and radius.key == mk("sym", ss[6]).key
-        ctx.decide(rule, okc and okb and okr, e["scope"], e["node"], construct=f"spg:projection-centre:{_txt(e['node'], 50)}",
+        def agrees(got, want):
+            """True: the same term; False: another fully understood value (a derived difference); None: not read by this analysis"""
+            if got is None:
+                return None
+            if S.same(got, want):
+                return True
+            return False if S.understood(got) and S.no_carried_unknown(got) else None
+        parts = [agrees(centre, Xs), agrees(bnds, Bs), agrees(radius, mk("sym", ss[6])) if len(ss) > 6 else None]
+        ctx.decide(rule, False if False in parts else (None if None in parts else True), e["scope"], e["node"],
+                   construct=f"spg:projection-centre:{_txt(e['node'], 50)}",
                    detail=f"project_onto_tr(., {ss[0]}, {ss[3]}, {ss[6] if len(ss) > 6 else '?'})",
                    bad_detail=f"the projection is made around `{S.brief(centre, 60, 2) if centre is not None else '?'}` with bounds `{S.brief(bnds, 40, 2) if bnds is not None else '?'}` "
                               f"and radius `{S.brief(radius, 40, 2) if radius is not None else '?'}`; expected the subproblem's {ss[0]}, {ss[3]} and {ss[6] if len(ss) > 6 else 'radius'} "
@@ -282,6 +351,13 @@ def d3_feasible(ctx):
         ctx.undecided(rule, drv, None, construct="driver:trial-point", detail="replacement of the iterate not found")
     for e in accepts:
         ok, why = _in_box(e["value"], _box(Bd))
+        if ok is not False:
+            # the first iteration of the main loop starts from the feasible start itself (exact values, no induction hypothesis)
+            for f in _all_events(I):
+                if f is not e and f["kind"] == "assign" and f["node"] is e["node"] and f["name"] == e["name"] and f["frame"] == fr.id:
+                    o1, w1 = _in_box(f["value"], _box(Bd))
+                    if o1 is False:
+                        ok, why = False, w1 + " (first iteration)"
         ctx.decide(rule, ok, drv, e["node"], construct="driver:trial-point",
                    detail=f"the accepted point is a convex combination of projections onto `{dps[2]}` (Cauchy step and SPG step computed for the iterate)",
                    bad_detail=f"the accepted point is {why}; it is not provably inside `{dps[2]}`")
@@ -326,7 +402,9 @@ def _coefficient(t, sym):
 
 
 def _step_function(ctx, I, fr, scope, index, X, box, tag, what):
-    """Function returning (.., step, ..): every return and every contributing definition of the returned step satisfies X + step in box."""
+    """Function returning (.., step, ..): every return satisfies X + step in box (the returned value is a decision tree over all the
+    paths to the return, loops solved by induction), and so does every definition whose value flows into a returned step -- also
+    inside helpers and on the first iteration of every loop, where the values are the exact initial ones."""
     rule = RULE9
     rets = [e for e in I.events if e["kind"] == "return" and e["frame"] == fr.id]
     if not rets:
@@ -334,37 +412,23 @@ def _step_function(ctx, I, fr, scope, index, X, box, tag, what):
     done = set()
     for ev in rets:
         v = ev["value"]
-        elt = None
-        if isinstance(ev["node"].value, ast.Tuple) and len(ev["node"].value.elts) > index:
-            elt = ev["node"].value.elts[index]
         step = item(v, index)
         ok, why = _in_box(step, box, offset=X)
         ctx.decide(rule, ok, scope, ev["node"], construct=f"{tag}-return:{_txt(ev['node'], 50)}", detail=what,
                    bad_detail=f"the step returned here gives the point {why}")
-        if elt is None:
-            continue
-        for st in _contributing(scope, ev["node"], elt):
-            if id(st) in done:
+        for (st, name, sc, evs) in _flow_defs(I, step):
+            if (id(st), name) in done or not isinstance(st, ast.stmt) or isinstance(st, (ast.For, ast.While)):
                 continue
-            done.add(id(st))
-            evs = _events_for(I, fr, st)
-            names = {n.id for n in ast.walk(elt) if isinstance(n, ast.Name)}
-            flow = [e for e in evs]
-            if not flow:
-                continue
+            done.add((id(st), name))
             verdict, why = True, ""
-            for e in flow:
+            for e in evs:
                 o, w = _in_box(e["value"], box, offset=X)
-                if o is False or (o is None and verdict is True):
+                if o is False and verdict is not False:
+                    first = any(e is f for r in I.loops.values() for f in r.first_events) and not any(e is f for f in I.events)
+                    verdict, why = o, w + (" (first iteration)" if first else "")
+                elif o is None and verdict is True:
                     verdict, why = o, w
-            if verdict is not True:
-                # say it on the first iteration of the enclosing loop, where the values are the exact initial ones
-                for e in _events_for(I, fr, st, first=True):
-                    o, w = _in_box(e["value"], box, offset=X)
-                    if o is not True:
-                        why = w + " (first iteration)"
-                        break
-            ctx.decide(rule, verdict, scope, st, construct=f"{tag}-step:{_txt(st)}", detail=what,
+            ctx.decide(rule, verdict, sc, st, construct=f"{tag}-step:{_txt(st)}", detail=what,
                        bad_detail=f"a definition of the step that reaches the return, `{_txt(st, 80)}`, gives the point {why}")
 
 
@@ -412,7 +476,7 @@ def _step_lengths(ctx, I, fr, scope, X, box):
                     continue
                 seen.add(id(d["node"]))
                 bad = [failing[l.key] for l in dl if l.key in failing]
-                verdict = True if not bad else (None if any(S.mentions(b, S._not_understood) for b in bad) else False)
+                verdict = True if not bad else (None if not (S.understood(*bad) and S.no_carried_unknown(*bad)) else False)
                 ctx.decide(rule, verdict, scope, d["node"], construct=f"spg:step-length<=1:{_txt(d['node'])}",
                            detail=f"the step length defined by `{_txt(d['node'], 70)}` is bounded by 1 wherever it weights a new projected point",
                            bad_detail=(f"the step length defined by `{_txt(d['node'], 90)}` can be `{S.brief(bad[0], 140, 3)}`, which is not bounded by 1; "
@@ -421,7 +485,7 @@ def _step_lengths(ctx, I, fr, scope, X, box):
                 # an update whose weight is not a named step length: judge the weight itself
                 seen.add(id(e["node"]))
                 bad = list(failing.values())
-                verdict = True if not bad else (None if any(S.mentions(b, S._not_understood) for b in bad) else False)
+                verdict = True if not bad else (None if not (S.understood(*bad) and S.no_carried_unknown(*bad)) else False)
                 ctx.decide(rule, verdict, scope, e["node"], construct=f"spg:step-length<=1:{_txt(e['node'])}",
                            detail=f"the weight `{_txt(e['node'], 70)}` gives to the new projected point is bounded by 1",
                            bad_detail=(f"in `{_txt(e['node'], 90)}` the weight of the new projected point can be `{S.brief(bad[0], 140, 3)}`, which is not bounded by 1") if bad else "")
@@ -568,6 +632,7 @@ _REFACTOR_M = [
 
 def variants(repo):
     from optilint.selftest import Variant, sub, sub_in_func, alpha_rename, reformat, commute
+    from . import C05_variants as V2
     S = "optimism/TrustRegionSPG.py"
     T = DRIVER
     return [
@@ -670,6 +735,9 @@ def variants(repo):
         Variant("feasible but different: Cauchy cut-back scales the step", S,
                 sub_in_func("find_generalized_cauchy_point", "            alpha *= cutback\n            s = project(x - alpha*g, bounds) - x\n            ss = s@s",
                             "            alpha *= cutback\n            s = cutback*s\n            ss = s@s"), None),
+    ] + [Variant("round 2: " + nm, S, _chain(*V2.full_chain(key)), expect) for (nm, key, expect) in V2.EXPECT] + [
+        Variant("round 2: " + " + ".join(keys), S, _chain(*[pr for k in keys for pr in V2.full_chain(k)]), None)
+        for keys in (("n1", "n2", "p1", "q2", "v_split"), ("t3", "p4", "w17", "s1", "q4"), ("s7", "t2", "q3", "t1", "v_partial", "u10"))] + [
         Variant("reformat", S, reformat(), None),
         Variant("alpha-rename driver", S, alpha_rename(T), None),
         Variant("alpha-rename solve_spg_subproblem", S, alpha_rename("solve_spg_subproblem"), None),
